@@ -175,6 +175,25 @@ Fixpoint uniquify_used (used : list string) (reqs : list string) : list string :
   | r :: rest => uniquify_used (lower (fresh used (strip_us r)) :: used) rest
   end.
 
+(** the name assignment with the proposed fix C06_identifiers.diff applied: after the strip, runs of
+    underscores are collapsed and an empty name is replaced by the fallback of the object's kind; the
+    result of that normalisation is unchanged by [strip_us], so every theorem about [uniquify] (they hold
+    for all request lists) also covers [uniquify_fixed] *)
+Fixpoint collapse_us (prev_us : bool) (s : string) : string :=
+  match s with
+  | EmptyString => EmptyString
+  | String c r =>
+      if is_us c then (if prev_us then collapse_us true r else String c (collapse_us true r))
+      else String c (collapse_us false r)
+  end.
+
+Definition norm_fixed (rf : string * string) : string :=
+  let n := collapse_us false (strip_us (fst rf)) in
+  match n with EmptyString => snd rf | _ => n end.
+
+Definition uniquify_fixed (used : list string) (reqs : list (string * string)) : list string :=
+  uniquify used (map norm_fixed reqs).
+
 (** a sub-scope starts from everything its parent has taken (l.688) *)
 Definition uniquify_child (used : list string) (parent child : list string) : list string * list string :=
   (uniquify used parent, uniquify (uniquify_used used parent) child).
